@@ -217,6 +217,35 @@ pub fn gen_universe(rng: &mut Rng, width: u8, full_u8: bool) -> Vec<Raw> {
         return v;
     }
     let w = width;
+    if rng.chance(1, 5) {
+        // chain universe: every truncation of one or two addresses at the shallow and the deep end
+        // (paths with a node at every length, full-width leaves, adjacent full-width siblings)
+        let mut out: Vec<Raw> = vec![];
+        let nb = rng.range(1, 2);
+        for _ in 0..nb {
+            let base = match rng.below(4) {
+                0 => 0,
+                1 => left_align(w, !0u128),
+                _ => left_align(w, rng.u128()),
+            };
+            let mut lens: Vec<u8> = (0..=8.min(w)).collect();
+            lens.extend(w.saturating_sub(8)..=w);
+            for l in lens {
+                let k = Raw { addr: base & mask(l), len: l };
+                if !out.contains(&k) {
+                    out.push(k);
+                }
+                // the sibling at this length (differs in the last bit of the prefix)
+                if l > 0 && rng.chance(1, 2) {
+                    let sib = Raw { addr: (base & mask(l)) ^ (1u128 << (128 - l as u32)), len: l };
+                    if !out.contains(&sib) {
+                        out.push(sib);
+                    }
+                }
+            }
+        }
+        return out;
+    }
     // bases
     let mut bases: Vec<u128> = vec![left_align(w, rng.u128())];
     if rng.chance(2, 3) {
@@ -660,6 +689,32 @@ pub fn gen_thread_scn(verif_seed: u64, idx: u64, small: bool) -> ThreadScn {
     let width = script.cfg.ptype.width();
     let hot = script.cfg.universe.clone();
     let mut g = Gen { rng: &mut rng, cfg: script.cfg.clone(), width, next_v: 1 << 32, hot, uar: false };
+    if idx % 4 == 3 {
+        // counter stress: two (or four) valued sub-trie roots, every worker cycles remove()+set()
+        // on its own root entry, so that updates of the shared entry counter interleave
+        let w = width;
+        let top = |bits: u128, len: u8| Raw { addr: bits << (128 - len as u32), len };
+        let mut steps = vec![];
+        let mut v = 1u64 << 33;
+        let deep = g.rng.chance(1, 2);
+        let roots: Vec<Raw> = if deep { vec![top(0, 2), top(1, 2), top(2, 2), top(3, 2)] } else { vec![top(0, 1), top(1, 1)] };
+        for r in &roots {
+            steps.push(Step::Insert { m: 0, k: *r, v });
+            v += 1;
+            if w > 4 {
+                let child = Key { bits: r.addr, len: r.len }.child(g.rng.chance(1, 2)).child(g.rng.chance(1, 2)).raw();
+                steps.push(Step::Insert { m: 0, k: child, v });
+                v += 1;
+            }
+        }
+        script.steps = steps;
+        let cuts = if deep { vec![MAct::Split(0), MAct::Split(0), MAct::Split(0)] } else { vec![MAct::Split(0)] };
+        let rounds = if small { 40 } else { 120 };
+        let workers: Vec<Vec<MAct>> = (0..roots.len())
+            .map(|_| vec![MAct::Churn { i: 0, rounds, v0: g.vblock() }, MAct::IterMutScoped { i: 0, form: 0, order: g.rng.next(), v0: g.vblock() }, MAct::Churn { i: 0, rounds, v0: g.vblock() }])
+            .collect();
+        return ThreadScn { verif_seed, idx, script, cuts, workers };
+    }
     let ncuts = g.rng.range(1, 6);
     let mut cuts = vec![];
     for _ in 0..ncuts {
